@@ -12,6 +12,7 @@ from yowsup.layers import YowParallelLayer, YowLayerEvent
 from yowsup.layers.network import YowNetworkLayer
 from yowsup.layers.axolotl import AxolotlSendLayer, AxolotlControlLayer, AxolotlReceivelayer
 from yowsup.layers.protocol_iq import YowIqProtocolLayer
+from yowsup.layers.logger import YowLoggerLayer
 from yowsup.stacks import YowStackBuilder
 from yowsup.profile.profile import YowProfile
 from yowsup.config.v1.config import Config
@@ -81,7 +82,8 @@ class ProtoRig(object):
         self.flags = flags
         self.axolotl = axolotl
         self.home = None
-        layers = [Bottom]
+        # the logger layer of the default stack sits right above the transport: it formats every stanza that passes
+        layers = [Bottom, YowLoggerLayer]
         if axolotl:
             layers += [AxolotlControlLayer, YowParallelLayer((AxolotlSendLayer, AxolotlReceivelayer))]
         layers += [YowParallelLayer(YowStackBuilder.getProtocolLayers(**flags)), top_cls]
@@ -114,7 +116,7 @@ class ProtoRig(object):
     def close(self):
         if self.home:
             try:
-                for i in (1, 2):
+                for i in (1, 2, 3):
                     layer = self.stack.getLayer(i)
                     mgr = getattr(layer, "_manager", None)
                     if mgr is not None:
